@@ -324,7 +324,7 @@ def run(tier, only=None):
         R.case(r["case"], True, sample=r["case"] if i % 61 == 0 else None, section="table")
         for sig in r["bad"]:
             R.violation(sig, {"case": r["case"]})
-    for r in check_exc(pmap(_random_job, range(120 if tier == "quick" else 1200))):
+    for r in check_exc(pmap(_random_job, range(120 if tier == "quick" else 6000))):
         R.case(["random", r["k"]], True, sample=r["case"] if r["k"] % 41 == 0 else None, section="random")
         for sig in r["bad"]:
             R.violation(sig, {"k": r["k"], "case": r["case"]})
@@ -332,11 +332,11 @@ def run(tier, only=None):
         R.case(["crm_type", r["k"]], True, sample=r["case"], section="crm_types")
         for sig in r["bad"]:
             R.violation(sig, {"wing_type": r["k"], "case": r["case"]})
-    for r in check_exc(pmap(_multi_job, range(60 if tier == "quick" else 600))):
+    for r in check_exc(pmap(_multi_job, range(60 if tier == "quick" else 3000))):
         R.case(["multi", r["k"]], True, sample=r["case"] if r["k"] % 29 == 0 else None, section="multi")
         for sig in r["bad"]:
             R.violation(sig, {"k": r["k"], "case": r["case"]})
-    for r in check_exc(pmap(_multi_asym_job, range(60 if tier == "quick" else 600))):
+    for r in check_exc(pmap(_multi_asym_job, range(60 if tier == "quick" else 3000))):
         R.case(["multi_asym", r["k"]], True, sample=r["case"] if r["k"] % 29 == 0 else None, section="multi_asym")
         for sig in r["bad"]:
             R.violation(sig, {"k": r["k"], "case": r["case"]})
